@@ -4,6 +4,9 @@
 // and a truncation that leaves a section brace open must be rejected. Graph serialize()/Graph(buffer) and
 // Permutation array round trips are checked on seeded instances.
 #include "runner.hpp"
+#include <cctype>
+#include <memory>
+#include <map>
 #include "simfs/simstream.hpp"
 
 #include <kernel/runtime.hpp>
@@ -31,8 +34,40 @@ namespace
 
   std::string gen_key(Gen& g, int i)
   {
+    // a quarter of the names come from families in which one name is a proper prefix of another (tol / tol_abs,
+    // rich / richardson-mgv as in the shipped solver configurations): keys are compared without case, not by prefix
+    static const char* fam[] = {"tol", "tol_abs", "tol_abs_low", "rich", "richardson", "richardson-mgv", "a", "ab", "abc", "Max", "max-iter", "MAX-ITER-inner"};
+    if(g.idx(4) == 0) return fam[g.idx(12)];
     static const char* stems[] = {"key", "Solver", "max-iter", "tol_rel", "a", "Mesh.File", "x y", "UPPER", "n0"};
     return std::string(stems[g.idx(9)]) + std::to_string(i);
+  }
+
+  // independent model of a property map: what the harness put in, keyed by lower-case names (names are case-insensitive)
+  struct Model
+  {
+    std::map<std::string, std::string> entries;
+    std::map<std::string, std::unique_ptr<Model>> sections;
+  };
+  std::string lower(std::string x) { for(char& c : x) c = char(std::tolower((unsigned char)c)); return x; }
+
+  void compare_with_model(const PropertyMap& pm, const Model& m, const std::string& path, const char* when)
+  {
+    size_t ne = 0; for(auto it = pm.begin_entry(); it != pm.end_entry(); ++it) ++ne;
+    if(ne != m.entries.size()) sim::fail("PMAP_MODEL", std::string(when) + ": section '" + path + "' holds " + std::to_string(ne) + " entries, " + std::to_string(m.entries.size()) + " distinct keys were stored");
+    for(const auto& kv : m.entries)
+    {
+      auto r = pm.get_entry(String(kv.first));
+      if(!r.second) sim::fail("PMAP_MODEL", std::string(when) + ": key '" + kv.first + "' of section '" + path + "' is gone");
+      if(std::string(r.first) != kv.second) sim::fail("PMAP_MODEL", std::string(when) + ": key '" + kv.first + "' of section '" + path + "' holds '" + r.first + "', stored was '" + kv.second + "'");
+    }
+    size_t ns = 0; for(auto it = pm.begin_section(); it != pm.end_section(); ++it) ++ns;
+    if(ns != m.sections.size()) sim::fail("PMAP_MODEL", std::string(when) + ": section '" + path + "' holds " + std::to_string(ns) + " sub-sections, " + std::to_string(m.sections.size()) + " distinct names were stored");
+    for(const auto& kv : m.sections)
+    {
+      const PropertyMap* sub = pm.get_sub_section(String(kv.first));
+      if(sub == nullptr) sim::fail("PMAP_MODEL", std::string(when) + ": sub-section '" + kv.first + "' of '" + path + "' is gone");
+      compare_with_model(*sub, *kv.second, path + "/" + kv.first, when);
+    }
   }
 
   std::string gen_value(Gen& g)
@@ -47,18 +82,28 @@ namespace
     return v;
   }
 
-  void gen_tree(Gen& g, PropertyMap& pm, int depth, int& budget)
+  void gen_tree(Gen& g, PropertyMap& pm, Model& m, int depth, int& budget)
   {
     int ne = int(g.idx(5));
-    for(int i = 0; i < ne && budget > 0; ++i, --budget) { pm.add_entry(String(gen_key(g, i)), String(gen_value(g))); ++CNT.entries; }
+    for(int i = 0; i < ne && budget > 0; ++i, --budget)
+    {
+      const std::string k = gen_key(g, i), v = gen_value(g);
+      pm.add_entry(String(k), String(v));      // replaces the value of an existing key (compared without case)
+      m.entries[lower(k)] = v;
+      ++CNT.entries;
+    }
     if(depth >= 3) return;
     int ns = int(g.idx(depth == 0 ? 4 : 3));
     for(int i = 0; i < ns && budget > 0; ++i, --budget)
     {
       static const char* names[] = {"Section", "sub", "Linear Solver", "A.B", "s"};
-      PropertyMap* sub = pm.add_section(String(std::string(names[g.idx(5)]) + std::to_string(i)));
+      static const char* fam[] = {"rich", "richardson-mgv", "Richardson", "mg", "mg-coarse", "s", "sub"};
+      const std::string nm = (g.idx(4) == 0) ? std::string(fam[g.idx(7)]) : std::string(names[g.idx(5)]) + std::to_string(i);
+      PropertyMap* sub = pm.add_section(String(nm));   // returns the existing section of that name, if any
+      auto& ms = m.sections[lower(nm)];
+      if(!ms) ms.reset(new Model);
       ++CNT.sections;
-      gen_tree(g, *sub, depth + 1, budget);
+      gen_tree(g, *sub, *ms, depth + 1, budget);
     }
   }
 
@@ -123,15 +168,18 @@ namespace
     size_t cw = simfs::draw_chunk("chunk_w1"), cr = simfs::draw_chunk("chunk_r1"), cw2 = simfs::draw_chunk("chunk_w2");
     const bool vary = sim::cfg_int("vary_chunks", 0, 2) != 0;
     PropertyMap t0;
+    Model model;
     int budget = 40;
-    gen_tree(g, t0, 0, budget);
+    gen_tree(g, t0, model, 0, budget);
     ++CNT.trees;
+    compare_with_model(t0, model, "", "after building the tree");
     Bytes b1, b2;
     write_tree(t0, b1, cw, vary);
     PropertyMap t1;
     std::string what;
     if(!read_tree(t1, b1, cr, vary, size_t(-1), what)) sim::fail("PMAP_OWN_OUTPUT_REJECTED", "PropertyMap::read rejects the output of PropertyMap::write: " + what);
     compare_trees(t0, t1, "");
+    compare_with_model(t1, model, "", "after dump and parse");
     write_tree(t1, b2, cw2, vary);
     if(b1 != b2) sim::fail("PMAP_ROUNDTRIP_BYTES", "second dump differs from the first");
     if(sim::cfg_int("faulted", 0, 2) == 0) return;
